@@ -208,6 +208,16 @@ func (h *History) Add(client int, in In, call int64, out Out, ret int64) {
 	h.mu.Unlock()
 }
 
+// AddBounded records an operation whose effect is known to have happened by
+// ret although its outcome was not observed (a non-blocking report followed,
+// on the same goroutine, by a blocking report that returned at ret: the
+// monitor handles reports in arrival order).
+func (h *History) AddBounded(client int, in In, call int64, out Out, ret int64) {
+	h.mu.Lock()
+	h.ops = append(h.ops, porcupine.Operation{ClientId: client, Input: in, Call: call, Output: out, Return: ret})
+	h.mu.Unlock()
+}
+
 // Ops returns the recorded operations.
 func (h *History) Ops() []porcupine.Operation {
 	h.mu.Lock()
